@@ -11,6 +11,11 @@ import Driver.Common
     basic <valuehex>                      → basic none | basic u=<hex> p=<hex|none>
     info <valuehex>                       → info none | info algo=… ut=… user=… uhh=… uhb=… opaque=… realm=… qop=… cnl=… nc=… | un3 …
     conn <valuehex>                       → <basic line> ; <info line>     (value as a real request would carry it)
+    basich {<kind> <namehex> <valuehex>}* → basic line, connection with these request headers (fabricated)
+    infoh {<kind> <namehex> <valuehex>}*  → info line, same
+    connm <valuehex> <valuehex>*          → <basic line> ; <info line>     (real request with several Authorization headers)
+    layout <valuehex>                     → lay none | lay alloc=<n> user=<off:len|-> uhh=… uhb=… opaque=… realm=… | un3 none | un3 alloc=… user=… uhh=… uhb=…
+                                            (offsets relative to the first byte behind the returned structure)
 -/
 open Mhd.Auth Driver
 
@@ -56,13 +61,37 @@ def parseOptParam (v q : String) : Option (Option Param) :=
 def showUname (u : UnameInfo) : String :=
   s!"ut={u.utype} user={optHex u.username} uhh={optHex u.userhashHex} uhb={optHex u.userhashBin}"
 
-def basicLine (v : Bytes) : String :=
-  match basicApi v with
+def basicLineH (hs : List Hdr) : String :=
+  match basicApiH hs with
   | none => "basic none"
   | some (u, p) => s!"basic u={hexOfBytes u} p={optHex p}"
 
-def infoLine (v : Bytes) : String :=
-  match digestApi v with
+def authHdr (v : Bytes) : Hdr := ⟨Mhd.Gen.Auth.headerKind, Mhd.Gen.Auth.authHeader, v⟩
+
+def basicLine (v : Bytes) : String := basicLineH [authHdr v]
+
+def showReg : Option (Nat × Nat) → String
+  | none => "-"
+  | some (o, l) => s!"{o}:{l}"
+
+def layLine (hs : List Hdr) : String :=
+  match digestLayH hs with
+  | .ok none => "lay none"
+  | .ok (some (i, u)) =>
+    let a := match i with
+      | .ok l => s!"lay alloc={l.size} user={showReg l.user} uhh={showReg l.uhh} uhb={showReg l.uhb} opaque={showReg l.opaq} realm={showReg l.realm}"
+      | .null => "lay null"
+      | .overread => "lay fault pct-overread"
+    let b := match u with
+      | .ok l => s!"un3 alloc={l.size} user={showReg l.user} uhh={showReg l.uhh} uhb={showReg l.uhb}"
+      | .null => "un3 none"
+      | .overread => "un3 fault pct-overread"
+    a ++ " | " ++ b
+  | .reject => "lay none"
+  | .fault s => s!"lay fault {showSite s}"
+
+def infoLineH (hs : List Hdr) : String :=
+  match digestApiH hs with
   | .ok none => "info none"
   | .ok (some (i, u)) =>
     let a := match i with
@@ -76,6 +105,14 @@ def infoLine (v : Bytes) : String :=
     a ++ " | " ++ b
   | .reject => "info none"
   | .fault s => s!"info fault {showSite s}"
+
+def infoLine (v : Bytes) : String := infoLineH [authHdr v]
+
+def allHex : List String → Option (List Bytes)
+  | [] => some []
+  | h :: t => match bytesOfHex h, allHex t with
+    | some b, some r => some (b :: r)
+    | _, _ => none
 
 /-- values a real request can carry unchanged: no NUL/CR/LF, no leading or trailing SP/HT -/
 def connOk (v : Bytes) : Bool :=
@@ -126,6 +163,23 @@ def stepLine (s : Unit) (ws : List String) : Unit × List String :=
   | ["info", h] =>
     match bytesOfHex h with
     | some b => (s, [infoLine b])
+    | none => (s, ["bad-op"])
+  | "basich" :: rest =>
+    match parseHdrs rest with
+    | some hs => (s, [basicLineH hs])
+    | none => (s, ["bad-op"])
+  | "infoh" :: rest =>
+    match parseHdrs rest with
+    | some hs => (s, [infoLineH hs])
+    | none => (s, ["bad-op"])
+  | "connm" :: h0 :: rest =>
+    match allHex (h0 :: rest) with
+    | some vs =>
+      if vs.all connOk then (s, [basicLineH (vs.map authHdr) ++ " ; " ++ infoLineH (vs.map authHdr)]) else (s, ["bad-op"])
+    | none => (s, ["bad-op"])
+  | ["layout", h] =>
+    match bytesOfHex h with
+    | some b => (s, [layLine [authHdr b]])
     | none => (s, ["bad-op"])
   | ["conn", h] =>
     match bytesOfHex h with
